@@ -33,6 +33,9 @@ func c16Prop(st *CaseStats, fam int) func(t *rapid.T) {
 			cfg.MaxIn = 2
 			depth = rapid.SampledFrom([]int{0, 1}).Draw(t, "depth")
 		}
+		if fam == FamHuge {
+			depth = rapid.SampledFrom([]int{0, 1, 1, 1}).Draw(t, "depthHuge")
+		}
 		c, err := GenCase(t, ctx, sc, cfg, depth, "c")
 		if err != nil {
 			t.Fatalf("%s: %v", sc, err)
